@@ -3,6 +3,7 @@ import re
 from .core import ast as A
 
 INTERNAL = "distributed-walrus/src/controller/internal.rs"
+BUCKET = "distributed-walrus/src/bucket.rs"
 CTRL = "distributed-walrus/src/controller/mod.rs"
 MONITOR = "distributed-walrus/src/monitor.rs"
 
@@ -15,6 +16,11 @@ RULES = {
     "C22.3": "reader bookkeeping in read_one_for_topic: delivered_in_segment += 1 occurs exactly on the paths that return Ok(Some(entry)); every `segment += 1` is paired with "
              "`delivered_in_segment = 0` and is under `segment < current_segment` and the `delivered >= sealed_count` test; `return Ok(None)` is only reachable after a read of the "
              "cursor's own segment returned no entry; read_one_for_topic_shared holds the cursor map's lock across the whole read",
+    "C22.5": "an append that passed the lease test cannot be overtaken by the sealing of its segment (= C23.1): the lease test and the engine append are one critical section with "
+             "respect to lease updates. Otherwise a producer that has passed the test and waits for the per-key mutex writes into the segment after another producer's append "
+             "sealed it with the count captured before; the entry is acknowledged and no GET returns it",
+    "C22.4": "no acknowledged append into a segment this node knows to be sealed (= C23.2's path clause): every path of forward_append that reaches the append has executed "
+             "self.update_leases().await before it. Readers leave a sealed segment after sealed_count entries, so an entry acknowledged into it afterwards is never returned by a GET",
 }
 
 
@@ -28,7 +34,7 @@ def _arm(m, prefix):
 def run(ctx):
     for k, v in RULES.items():
         ctx.rule(k, v)
-    files = A.load(ctx, [INTERNAL, CTRL, MONITOR])
+    files = A.load(ctx, [INTERNAL, CTRL, MONITOR, BUCKET])
     try:
         fa = files[INTERNAL].fn("forward_append")
         ra = files[CTRL].fn("record_append")
@@ -213,6 +219,10 @@ def run(ctx):
             ctx.violate("C22.3", "NodeController::read_one_for_topic_shared", "shared-cursor", CTRL, rs["line"], "the shared read does not pass the locked map's cursor entry")
     else:
         ctx.violate("C22.3", "NodeController::read_one_for_topic_shared", "cursor-lock-not-held", CTRL, rs["line"], "the cursor map's lock is not held across the read")
+    from .c23 import check_lease_refresh
+    check_lease_refresh(ctx, files, "C22.4")
+    from .c23 import check_lease_critical_section
+    check_lease_critical_section(ctx, files, "C22.5")
     ctx.assume("NOT decided (explicitly): what happens when an append is acknowledged between the moment a count is captured and the moment the rollover carrying it is applied, or when two "
                "rollovers fire for one threshold - these are interleavings of a distributed protocol in a crate that cannot be type-checked here")
     return {
